@@ -86,11 +86,11 @@ def cases(tier, seed):
         else:
             keep = trip
         for i, (reg, srv, cli) in enumerate(keep):
-            out.append(dict(script=triple, suite=s, seed=seed * 100000 + si * 1000 + i, mode="pattern",
+            out.append(dict(cross=["login_finish", "srv_login_finish", "srv_reg_start"], cross_limit=60, script=triple, suite=s, seed=seed * 100000 + si * 1000 + i, mode="pattern",
                             params=dict(reg=reg, srv=srv, cli=cli, cred_reg=b"user", cred_login=b"user")))
         creds = [(b"", b""), (b"", b"a"), (b"a", b""), (b"alice", b"alic"), (b"alic", b"alice"), (b"x" * 300, b"x" * 299 + b"y"),
                  (b"x" * 70000, b"x" * 70000), (b"a\x00", b"a")]
         for i, (c1, c2) in enumerate(creds):
-            out.append(dict(script=triple, suite=s, seed=seed * 100000 + si * 1000 + 500 + i, mode="pattern",
+            out.append(dict(cross=["login_finish", "srv_login_finish", "srv_reg_start"], cross_limit=60, script=triple, suite=s, seed=seed * 100000 + si * 1000 + 500 + i, mode="pattern",
                             params=dict(reg=(None, None), srv=(None, None, None), cli=(None, None, None), cred_reg=c1, cred_login=c2)))
     return out
